@@ -120,6 +120,17 @@ func ModelBytesCompare(a, b []byte) int {
 	return 0
 }
 
+//verif:model internal/bytealg.CompareString
+func ModelCompareString(x, y string) int {
+	if x < y {
+		return -1
+	}
+	if x > y {
+		return 1
+	}
+	return 0
+}
+
 //verif:model internal/bytealg.IndexString
 func ModelIndexString(s, sub string) int {
 	n := len(sub)
